@@ -31,7 +31,7 @@ def gen_ops(rng, heavy):
     def stamp():
         nonlocal t
         t += rng.choice([4, 4, 1000, 60000])
-        return pack(t if rng.chance(4, 5) else t - rng.below(10 ** 6) * 4, rng.below(4), rng.below(3))
+        return pack(t if rng.chance(4, 5) else t - rng.below(10 ** 6) * 4, rng.choice([0, 1, 2, 3, 9, 10, 15, 16, 255, 0xABC, 65535]), rng.choice([0, 1, 2, 9, 10, 11, 16, 100, 255]))
     def newid():
         return rng.choice(IDS + [rng.below(2 ** 64), rng.below(5)])
     def data():
